@@ -476,7 +476,17 @@ fn set_vault_toggles(w: &mut World, h: &VH, t: (bool, bool, bool)) -> TxResult {
 
 fn vault_paths() -> Vec<(&'static str, usize)> {
     // (path, index into (flash_loan, deposit, withdraw))
-    vec![("deposit_direct", 1), ("withdraw_send_hook", 2), ("withdraw_direct_msg", 2), ("flash_loan_direct", 0), ("flash_loan_via_vault_router", 0)]
+    // the two callback paths: a contract takes a flash loan and sends the deposit / the withdrawal from inside its
+    // callback (it then repays exactly); paused is paused whatever else the vault is doing at that moment
+    vec![
+        ("deposit_direct", 1),
+        ("withdraw_send_hook", 2),
+        ("withdraw_direct_msg", 2),
+        ("flash_loan_direct", 0),
+        ("flash_loan_via_vault_router", 0),
+        ("deposit_from_inside_a_loan_callback", 1),
+        ("withdraw_from_inside_a_loan_callback", 2),
+    ]
 }
 
 fn exec_vault_path(w: &mut World, h: &VH, path: &str) -> TxResult {
@@ -485,6 +495,8 @@ fn exec_vault_path(w: &mut World, h: &VH, path: &str) -> TxResult {
         "withdraw_send_hook" => vault_withdraw(w, h, ALICE, 1_000_000),
         "withdraw_direct_msg" => w.exec(ALICE, &h.vault, &white_whale_std::vault_network::vault::ExecuteMsg::Withdraw {}, &[]),
         "flash_loan_direct" => crate::scn_vault::direct_loan(w, h, &h.root.fees, 100_000, &[Step::Repay(RepayKind::Exact)]),
+        "deposit_from_inside_a_loan_callback" => crate::scn_vault::direct_loan(w, h, &h.root.fees, 100_000, &[Step::Deposit(1000), Step::Repay(RepayKind::Exact)]),
+        "withdraw_from_inside_a_loan_callback" => crate::scn_vault::direct_loan(w, h, &h.root.fees, 100_000, &[Step::WithdrawShares(1000), Step::Repay(RepayKind::Exact)]),
         _ => {
             let amount = 100_000u128;
             let f = &h.root.fees;
@@ -517,6 +529,8 @@ fn check_vault(cw20: bool, liquidity: bool, cx: &mut Cx, cases: &mut Vec<Value>)
     cx.check("fresh.everything_enabled", cfg.deposit_enabled && cfg.withdraw_enabled && cfg.flash_loan_enabled, || "vault does not start with all operations enabled".to_string());
     if liquidity {
         vault_deposit(&mut w, &h, ALICE, 1_000_000_000).unwrap();
+        // the borrower contract holds a few shares, so that a withdrawal sent from its loan callback has something to redeem
+        w.exec(ALICE, &h.lp, &cw20::Cw20ExecuteMsg::Transfer { recipient: h.adversary.clone(), amount: Uint128::new(10_000) }, &[]).unwrap();
     }
     let _ = compile(&h, &FEES, 0, &[]);
     let base = w.snapshot();
